@@ -38,7 +38,19 @@ SimpleStringBuffer::SimpleStringBuffer() :
     positions_filled_(0), write_limit_(SIMPLE_STRING_BUFFER_LEN-1)
 {
     buffer_[0] = '\0';
+#ifdef CPPUTEST_VERIF_HOOKS
+    for (size_t i = 0; i < sizeof(verifCanary_); i++) verifCanary_[i] = (unsigned char) (0xA5 ^ i);
+#endif
 }
+
+#ifdef CPPUTEST_VERIF_HOOKS
+bool SimpleStringBuffer::verifCanaryIntact() const
+{
+    for (size_t i = 0; i < sizeof(verifCanary_); i++)
+        if (verifCanary_[i] != (unsigned char) (0xA5 ^ i)) return false;
+    return true;
+}
+#endif
 
 void SimpleStringBuffer::clear()
 {
